@@ -740,6 +740,110 @@ def rule_const(ctx, rep):
               "qsbr gp.ctr starts even (%d): an online reader could publish 0 = offline" % val, [F.gp])
 
 
+def rule_membarrier(ctx, rep):
+    """sys_membarrier ABI and availability decision (memb, bp).  The reader side is compiler-only iff has_sys_membarrier is
+    set, so the flag may be set only when the command the master will issue is one the kernel reported and - for the
+    private expedited command - the process registered for.  Commands are checked against the kernel ABI (frozen table,
+    cross-checked with <linux/membarrier.h> when installed): a wrong command number makes the master's "barrier" a
+    query / unrelated command that returns success without ordering anything."""
+    import itertools
+    import re
+    from .. import ceval
+    ABI = {"QUERY": 0, "SHARED": 1, "PRIVATE_EXPEDITED": 8, "REGISTER_PRIVATE_EXPEDITED": 16}
+    try:
+        hdr = open("/usr/include/linux/membarrier.h").read()
+        for nm, want in (("GLOBAL", 1), ("PRIVATE_EXPEDITED", 8), ("REGISTER_PRIVATE_EXPEDITED", 16)):
+            mo = re.search(r"MEMBARRIER_CMD_%s\s*=\s*\(1 << (\d+)\)" % nm, hdr)
+            if mo and (1 << int(mo.group(1))) != want:
+                raise Broken("kernel header disagrees with the frozen membarrier ABI table for %s" % nm)
+    except OSError:
+        pass
+    Q, SH, PE, REG = ABI["QUERY"], ABI["SHARED"], ABI["PRIVATE_EXPEDITED"], ABI["REGISTER_PRIVATE_EXPEDITED"]
+    for fl, initfn in (("memb", "urcu_memb_init"), ("bp", "_urcu_bp_init")):
+        F = FL[fl]
+        m = ctx.mod(F.lib, "flat")
+        has = F.has_memb
+        pe_flag = has + "_private_expedited"
+        # 1. commands issued by the master
+        n = 0
+        shared_used = False
+        for f in m.defined():
+            for i in f.all_insts():
+                if not mm.is_membarrier(i) or not any(l[0] == "smp_mb_master" for l in (i.loc or ())):
+                    continue
+                n += 1
+                rep.touch(f)
+                cmd = ir.expr(f, i.args[1], 6)
+                flg = ir.const_of(f, i.args[2])
+                if cmd[0] == "c":
+                    ok = cmd[1] == PE
+                    got = "%d" % cmd[1]
+                elif cmd[0] == "select":
+                    c_ = cmd[1]
+                    okc = c_[0] == "icmp" and c_[1] == "ne" and c_[2][0] == "load" and c_[2][1] == "@" + pe_flag and c_[3] == ("c", 0)
+                    ok = okc and cmd[2] == ("c", PE) and cmd[3] == ("c", SH)
+                    shared_used = shared_used or cmd[3] == ("c", SH)
+                    got = ir.expr_str(cmd)
+                else:
+                    raise Broken("%s: membarrier command %s not a constant / flag-selected constant" % (fl, ir.expr_str(cmd)))
+                rep.check(ok and flg == 0, "C01.membarrier", "%s.master-cmd@%d" % (fl, i.line), "master issues MEMBARRIER_CMD_PRIVATE_EXPEDITED (%d)%s with flags 0" % (PE, " or, unregistered, SHARED (%d)" % SH if cmd[0] == "select" else ""),
+                          "the updater's sys_membarrier command is %s (flags %s): not the kernel's PRIVATE_EXPEDITED=%d / SHARED=%d - the call orders nothing while readers rely on it (compiler-only reader barriers)" % (got, flg, PE, SH),
+                          [i.where()])
+        pat.require(n >= 2, "%s: master membarrier sites" % fl)
+        # 2. the availability decision
+        f = m.fn(initfn)
+        pat.require(f is not None, "%s vanished" % initfn)
+        rep.touch(f)
+        sc = [i for i in f.all_insts() if mm.is_membarrier(i)]
+        q = [i for i in sc if ir.const_of(f, i.args[1]) == Q]
+        rg = [i for i in sc if ir.const_of(f, i.args[1]) == REG]
+        other = [i for i in sc if i not in q and i not in rg]
+        rep.check(len(q) == 1 and len(rg) == 1 and not other, "C01.membarrier", fl + ".init-cmds", "initialisation issues QUERY (0) once and REGISTER_PRIVATE_EXPEDITED (%d) once" % REG,
+                  "initialisation issues membarrier commands %s: expected one QUERY (0) and one REGISTER_PRIVATE_EXPEDITED (%d) - without the registration the kernel rejects (EPERM) or ignores the expedited command" %
+                  (sorted(str(ir.const_of(f, i.args[1])) for i in sc), REG), [i.where() for i in sc[:3]])
+        if len(q) != 1 or len(rg) != 1:
+            continue
+        st_has = [s for s in pat.stores(f, glob=has) if ir.const_of(f, s.args[0]) == 1]
+        st_pe = [s for s in pat.stores(f, glob=pe_flag) if ir.const_of(f, s.args[0]) == 1]
+        pat.require(st_has, "%s: %s = 1 store" % (fl, has))
+        kq, kr = ("call", "syscall", q[0].id), ("call", "syscall", rg[0].id)
+
+        def reachable(target_blocks, env):
+            """True / False / None: can a path whose edge predicates all hold under env reach one of the blocks"""
+            unknown = False
+            for p in paths.enum_paths(f, 0, stop=lambda b: b.id in target_blocks):
+                if p[-1] not in target_blocks:
+                    continue
+                ok = True
+                for a in paths.path_atoms(f, p):
+                    t = ceval.truth(a, env)
+                    if t is None:
+                        # predicates over other things (init_done, mutex results, refcount): independent of the decision
+                        continue
+                    if not t:
+                        ok = False
+                        break
+                if ok:
+                    return True
+            return False
+        bad = []
+        cases = 0
+        for qv, rv in itertools.product((-1, 0, SH, PE, PE | SH, 2, 4, 32), (0, -1)):
+            env = {kq: qv, kr: rv}
+            cases += 1
+            got_has = reachable(set(s.blk.id for s in st_has), env)
+            got_pe = reachable(set(s.blk.id for s in st_pe), env) if st_pe else False
+            can_pe = qv >= 0 and (qv & PE) and rv == 0
+            can_sh = shared_used and qv >= 0 and not (qv & PE) and (qv & SH)
+            if bool(got_has) != bool(can_pe or can_sh):
+                bad.append("query=%d register=%d: %s %s set (expected %s)" % (qv, rv, has, "is" if got_has else "is not", "set" if (can_pe or can_sh) else "clear"))
+            if shared_used and bool(got_pe) != bool(can_pe):
+                bad.append("query=%d register=%d: %s %s set" % (qv, rv, pe_flag, "is" if got_pe else "is not"))
+        rep.check(not bad, "C01.membarrier", fl + ".availability", "%s is set exactly when the kernel reports the command the master will issue and the registration succeeded (%d query/register classes)" % (has, cases),
+                  "availability decision differs from the commands the master issues: %s - readers drop to compiler-only barriers while the updater's membarrier call is unsupported or unregistered" % "; ".join(bad[:3]),
+                  [st_has[0].where()])
+
+
 def rule_bpreg(ctx, rep):
     """bp: the reader word a thread's rcu_read_lock() writes is on the registry the updater scans.  read_lock registers the
     thread iff its TLS reader pointer is NULL, so (a) that test precedes every access through the pointer and leads to
@@ -790,5 +894,6 @@ RULES = [
     ("C01.merge", rule_merge),
     ("C01.const", rule_const),
     ("C01.bpreg", rule_bpreg),
+    ("C01.membarrier", rule_membarrier),
 ]
 FLOORS = {}
